@@ -387,6 +387,17 @@ def putBlocksOf (bs : List Blk) (started : List Nat) (phase : Phase) : List Nat 
 def armAll (bs : List Blk) (s : CState) (ks : List Nat) : CState :=
   ks.foldl (fun s k => match (blk bs k).onSuccess with | some j => arm bs s j | none => s) s
 
+/-- where the try block of run_forever is left: the first of start() failure, request at the yield
+    after the start loop, cancellation during the asynchronous initialisation, initialisation
+    error, error of the first evaluation; otherwise the circuit runs until the request -/
+def phaseOf (startFailed atZero cancelled initBad calcFails : Bool) : Phase :=
+  if startFailed then .startFailed
+  else if atZero then .afterStart
+  else if cancelled then .asyncInit
+  else if initBad then .initFailed
+  else if calcFails then .evalFailed
+  else .running
+
 /-- everything that happened before the clean-up -/
 structure Plan where
   startEvs : List Ev          -- events of the start loop
@@ -422,15 +433,17 @@ def plan (c : Cfg) : Plan :=
   let allInit := (enum bs).all fun (k, b) => b.initialized asyncOk k
   let calcFails := bs.any fun b => b.kind == .cblock && b.fCalc
   -- phase in which the simulation was terminated, instant, error?, init results
-  let term : Phase × Nat × Bool × List JobEnd :=
-    if startFailed then (.startFailed, 0, true, [])
-    else if tX == 0 then (.afterStart, 0, ext.2.1, [])
-    else if ir.2.2 then (.asyncInit, tX, ext.2.1, ir.1)
-    else if s2.2 || !allInit then (.initFailed, ir.2.1, true, ir.1)
-    else if calcFails then (.evalFailed, ir.2.1, true, ir.1)
-    else (.running, tX, ext.2.1, ir.1)
-  let phase := term.1
-  let tT := term.2.1
+  let phase := phaseOf startFailed (tX == 0) ir.2.2 (s2.2 || !allInit) calcFails
+  let tT : Nat := match phase with
+    | .startFailed | .afterStart | .notStarted => 0
+    | .asyncInit | .running => tX
+    | .initFailed | .evalFailed => ir.2.1
+  let isErr : Bool := match phase with
+    | .startFailed | .initFailed | .evalFailed => true
+    | _ => ext.2.1
+  let initRes : List JobEnd := match phase with
+    | .startFailed | .afterStart | .notStarted => []
+    | _ => ir.1
   let failed := started.filter fun k => (blk bs k).kind == .async &&
     (match (blk bs k).mainFailAt with | some t => decide (t ≤ tT) | none => false)
   -- timers armed by the initialisation (pass 2) and by the output events of the running circuit
@@ -439,8 +452,8 @@ def plan (c : Cfg) : Plan :=
   let putBlocks := putBlocksOf bs started phase
   let sRun := armAll bs { timers := initTimers bs started pass2, stopped := [], started := started } putBlocks
   let initDone := phase == .evalFailed || phase == .running
-  { startEvs := sl.1, started := started, phase := phase, termTime := tT, isError := term.2.2.1
-    initRes := term.2.2.2, failed := failed, inited := pass2
+  { startEvs := sl.1, started := started, phase := phase, termTime := tT, isError := isErr
+    initRes := initRes, failed := failed, inited := pass2
     puts := putBlocks.map (Ev.out · false), timers := sRun.timers
     helper := c.waitInit && !initDone
     -- abort() was called inside the simulator task and an exception left the try block before
